@@ -253,7 +253,7 @@ impl Default for He {
 impl El for He {
     const KIND: i128 = 0;
     const TRACKED: bool = true;
-    type Other = u32;
+    type Other = Hq;
     fn mk(id: i64) -> He {
         He { id }
     }
@@ -292,15 +292,24 @@ impl El for Hz {
     }
 }
 
-impl El for u32 {
+/// plain 4-byte element without drop glue whose `Default` is STATEFUL: the k-th call yields k (the first value
+/// is the all-zero bit pattern): a constructor that calls `T::default()` once and copies the value shows
+#[derive(Clone, Copy, Debug, PartialEq)]
+pub struct Hq(pub u32);
+impl Default for Hq {
+    fn default() -> Hq {
+        Hq(default_call() as u32)
+    }
+}
+impl El for Hq {
     const KIND: i128 = 2;
     const TRACKED: bool = false;
     type Other = Hz;
-    fn mk(id: i64) -> u32 {
-        id as u32
+    fn mk(id: i64) -> Hq {
+        Hq(id as u32)
     }
     fn id(&self) -> i64 {
-        *self as i64
+        self.0 as i64
     }
 }
 
@@ -689,7 +698,7 @@ pub fn run_dyn(c: &Case) -> (Out, Vec<ARec>, bool) {
     match c.kind {
         0 => by_len::<He>(c),
         1 => by_len::<Hz>(c),
-        _ => by_len::<u32>(c),
+        _ => by_len::<Hq>(c),
     }
 }
 
@@ -716,9 +725,6 @@ pub fn enumerate(ns: &[usize], all_pans_upto: usize, big_samples: usize, mut emi
             let base = |op: i128| Case { op, kind, n, l: n, spare: 0, pan: -1, fail: -1, aux: 0 };
             let pans = |op: i128, l: usize| -> Vec<i64> {
                 let calls = calls_of(op, n, l);
-                if kind == 2 && op == 5 {
-                    return vec![-1]; // u32::default() cannot be made to panic
-                }
                 let mut v: Vec<i64> = vec![-1];
                 if calls <= all_pans_upto {
                     v.extend(0..calls as i64);
